@@ -28,7 +28,7 @@ use crate::{
     util::{zig_i32, zig_i64},
 };
 use log::error;
-use std::{borrow::Borrow, collections::HashMap, io::Write};
+use std::{borrow::Borrow, collections::HashMap, fmt::Debug, io::Write};
 
 /// Encode a `Value` into avro format.
 ///
@@ -66,7 +66,7 @@ pub(crate) fn encode_int<W: Write>(i: i32, writer: W) -> AvroResult<usize> {
     zig_i32(i, writer)
 }
 
-pub(crate) fn encode_internal<W: Write, S: Borrow<Schema>>(
+pub(crate) fn encode_internal<W: Write, S: Borrow<Schema> + Debug>(
     value: &Value,
     schema: &Schema,
     names: &HashMap<Name, S>,
@@ -81,6 +81,23 @@ pub(crate) fn encode_internal<W: Write, S: Borrow<Schema>>(
                 fully_qualified_name.into_owned(),
             ))?;
         return encode_internal(value, resolved.borrow(), names, enclosing_namespace, writer);
+    }
+
+    // A value that is not wrapped in `Value::Union` is accepted by validation for a union schema
+    // when it matches one of the branches: write that branch's index in front of it.
+    // (`Value::Null` and `Value::Record` choose their branch below.)
+    if let Schema::Union(union) = schema
+        && !matches!(value, Value::Union(..) | Value::Null | Value::Record(_))
+    {
+        let (index, branch) = union
+            .find_schema_with_known_schemata(value, Some(names), enclosing_namespace)
+            .ok_or_else(|| Details::EncodeValueAsSchemaError {
+                value_kind: ValueKind::from(value),
+                supported_schema: vec![SchemaKind::Union],
+            })?;
+        let index_bytes = encode_long(index as i64, &mut *writer)?;
+        let item_bytes = encode_internal(value, branch, names, enclosing_namespace, &mut *writer)?;
+        return Ok(index_bytes + item_bytes);
     }
 
     match value {
@@ -109,6 +126,10 @@ pub(crate) fn encode_internal<W: Write, S: Borrow<Schema>>(
         | Value::LocalTimestampMicros(i)
         | Value::LocalTimestampNanos(i)
         | Value::TimeMicros(i) => encode_long(*i, writer),
+        // A float is accepted by validation for a double schema: write the eight bytes the reader expects.
+        Value::Float(x) if matches!(schema, Schema::Double) => {
+            write_all_bytes(writer, &f64::from(*x).to_le_bytes())
+        }
         Value::Float(x) => write_all_bytes(writer, &x.to_le_bytes()),
         Value::Double(x) => write_all_bytes(writer, &x.to_le_bytes()),
         Value::Decimal(decimal) => match schema {
